@@ -8,6 +8,7 @@ import Rare.Model.C15Skeleton
 import Rare.Proofs.C15Flush
 import Rare.Proofs.C15MultiTail
 import Rare.Proofs.C15TraceTail
+import Rare.Proofs.C15Trunc
 import Rare.Gen.C15
 /-!
 # C15 — follow mode delivers every appended byte exactly once, in order
@@ -31,7 +32,9 @@ Remove / Create of the followed name, after the operation, in order, without que
 Go scheduler is fair to the fsnotify goroutine and the reader (liveness statements are of the form
 "some run of kernel goroutine + reader reaches …" together with a measure that every such step
 decreases).  Out of the model: a writer that keeps appending to a file after it was unlinked,
-truncation, rename (notify.go does not watch `Rename`).
+rename (notify.go does not watch `Rename`).  In-place truncation (copytruncate) is outside the property; what
+the readers do then is modelled by the extended systems of `Rare.Model.C15Trunc` and recorded in the
+section "in-place truncation" below.
 -/
 namespace Rare.C15
 open Rare.Follow Rare.C15.Spec Rare.C04 Rare.C15.Tail Rare.C15.Batch
@@ -958,6 +961,172 @@ theorem batch_reuse_breaks_stability :
     seeded.out.map (·.start) = [1, 2] := by
   decide
 
+
+/-! ## in-place truncation (copytruncate rotation) – outside the property, behaviour recorded -/
+
+/-- **notify_truncate_never_seeks_back.**  Notify follow under a writer that appends AND truncates in place
+    (no removal): in every reachable state the file opened at the start is still the open one, and the
+    number of delivered bytes is exactly the distance its offset has travelled from the start position –
+    the reader never goes back, so nothing is ever delivered twice, and nothing written below the
+    offset after a truncation is ever delivered. -/
+theorem notify_truncate_never_seeks_back (c0 : List β) (tail reopen : Bool) {s : NSt β}
+    (hr : NReachT (srcN reopen) (ninit (some c0) tail) s) (hrm : s.removes = 0) :
+    ∃ pos, s.f = some ⟨0, start0 (some c0) tail, pos⟩ ∧ s.delivered.length + start0 (some c0) tail = pos ∧
+      s.rd ≠ .ended :=
+  let hi := ntinv_reach c0 tail hr hrm
+  let ⟨p, h1, _, h3⟩ := hi.handle
+  ⟨p, h1, h3, hi.alive⟩
+
+/-- Every step of the extended notify LTS (writer incl. truncation, fsnotify goroutine, reader), seen through
+    a descriptor that stays open: the offset only grows, and what is delivered is what the file held
+    between the old and the new offset. -/
+theorem notify_truncate_reads_forward (reopen : Bool) {w : Who} {s s' : NSt β} (hs : NStepT (srcN reopen) w s s')
+    (h h' : Handle) (hf : s.f = some h) (hf' : s'.f = some h') (hino : h'.ino = h.ino) :
+    h.pos ≤ h'.pos ∧ s'.delivered = s.delivered ++ extract (s.fs.content h.ino) h.pos h'.pos :=
+  let ⟨a, _, c⟩ := nstepT_forward hs h h' hf hf' hino
+  ⟨a, c⟩
+
+/-- **notify_blind_below_offset.**  While the open file is the one at the path and is not longer than the
+    reader's offset (after a truncation, however much has been written below the offset since), no step of
+    the fsnotify goroutine or the reader delivers a byte. -/
+theorem notify_blind_below_offset (reopen : Bool) {w : Who} {s s' : NSt β} (hw : w ≠ .writer)
+    (hs : NStep (srcN reopen) w s s') (h : Handle) (hf : s.f = some h) (hp : s.fs.path = some h.ino)
+    (hb : (s.fs.content h.ino).length ≤ h.pos) : s'.delivered = s.delivered ∧ s'.fs = s.fs :=
+  let ⟨a, b, _⟩ := nstep_blind_beyond_end hw hs h hf hp hb
+  ⟨a, b⟩
+
+/-- the run of `notify_truncate_loses_counterexample` -/
+local macro "truncLosesRun" r:term : term => `(
+    (NReachT.step (.step (.step (.step (.step (.step (.step (.step (.step (.step (.step (.step (.step (.step (.step
+    (.refl (cfg := srcN $r) (s0 := ninit (some [(1 : Nat), 2, 3]) false))
+    (.base (.readSome _ ⟨0, 0, 0⟩ 3 rfl rfl (by decide) (by decide))))
+    (.truncate _ 0 0 rfl (by decide)))
+    (.base (.dispatch _ .write [] rfl)))
+    (.base (.readEmpty _ ⟨0, 0, 3⟩ rfl rfl rfl)))
+    (.base (.recvW _ rfl (by decide))))
+    (.base (.readEmpty _ ⟨0, 0, 3⟩ rfl rfl rfl)))
+    (.base (.append _ 0 [7, 8] rfl (by decide))))
+    (.base (.dispatch _ .write [] rfl)))
+    (.base (.recvW _ rfl (by decide))))
+    (.base (.readEmpty _ ⟨0, 0, 3⟩ rfl rfl rfl)))
+    (.base (.append _ 0 [9, 10] rfl (by decide))))
+    (.base (.dispatch _ .write [] rfl)))
+    (.base (.recvW _ rfl (by decide))))
+    (.base (.readSome _ ⟨0, 0, 3⟩ 1 rfl rfl (by decide) (by decide))))
+    (.base (.readEmpty _ ⟨0, 0, 4⟩ rfl rfl rfl))))
+
+/-- **notify_truncate_loses_counterexample** (expected behaviour, recorded; -f and -F alike).  `[1,2,3]`
+    delivered, the file truncated to nothing, `[7,8]` written, then `[9,10]`: the reader is back in its
+    `select` with no signal pending and no event queued, the file holds `[7,8,9,10]`, and the stream is
+    `[1,2,3,10]`: the first three bytes of the new generation are never delivered. -/
+theorem notify_truncate_loses_counterexample (reopen : Bool) :
+    ∃ s : NSt Nat, NReachT (srcN reopen) (ninit (some [1, 2, 3]) false) s ∧ s.removes = 0 ∧ s.quiet ∧
+      s.fs.content 0 = [7, 8, 9, 10] ∧ s.delivered = [1, 2, 3, 10] := by
+  cases reopen
+  · exact ⟨_, truncLosesRun false, rfl, ⟨rfl, rfl, rfl, rfl⟩, rfl, rfl⟩
+  · exact ⟨_, truncLosesRun true, rfl, ⟨rfl, rfl, rfl, rfl⟩, rfl, rfl⟩
+
+/-- **poll_reopen_restarts_shorter_file.**  Polling follow with re-open, reader at the top of `Read`, nothing
+    left to read through the old descriptor, and the file at the path – the SAME inode after a truncation,
+    or a new one after a rotation – shorter than the poller's offset: with a silent writer the reader does
+    its `ReadAttempts` empty reads, `Stat`s, re-opens, resets its offset and delivers the whole file at the
+    path from its beginning; no skip is counted.  (copytruncate rotation is handled like remove + create,
+    under the same proviso.) -/
+theorem poll_reopen_restarts_shorter_file (s : PSt β) (h : Handle) (j : Nat) (hf : s.f = some h)
+    (hp : s.fs.path = some j) (hrd : s.rd = .attempt 0) (hu : unread s.fs h = [])
+    (hlt : (s.fs.content j).length < s.readBytes) :
+    ∃ s', PSysReach (srcP true) s s' ∧ s'.delivered = s.delivered ++ s.fs.content j ∧
+      s'.f = some ⟨j, 0, (s.fs.content j).length⟩ ∧ s'.readBytes = (s.fs.content j).length ∧
+      s'.skips = s.skips := by
+  obtain ⟨s', h1, h2, h3, h4, h5, _⟩ := poll_restart_run (attempts_ok true) rfl s h j hf hp hrd hu hlt
+  exact ⟨s', h1, h2, h3, h4, h5⟩
+
+/-- Non-vacuity, as a run of the extended LTS: `[1,2,3]` delivered, truncated to nothing, `[7,8]` written; the
+    hypotheses of `poll_reopen_restarts_shorter_file` hold in that reachable state (same inode!). -/
+example : ∃ s : PSt Nat, PReachT (srcP true) (pinit (some [1, 2, 3]) false) s ∧ s.f = some ⟨0, 0, 3⟩ ∧
+    s.fs.path = some 0 ∧ s.rd = .attempt 0 ∧ unread s.fs ⟨0, 0, 3⟩ = [] ∧
+    (s.fs.content 0).length < s.readBytes ∧ s.fs.content 0 = [7, 8] := by
+  have hr : PReachT (srcP true) (pinit (some [(1 : Nat), 2, 3]) false) _ :=
+    .step (.step (.step (.refl (s0 := pinit (some [(1 : Nat), 2, 3]) false))
+    (.base (.readSome _ ⟨0, 0, 0⟩ 0 3 rfl (by decide) rfl (by decide) (by decide))))
+    (.truncate _ 0 0 rfl (by decide)))
+    (.base (.append _ 0 [7, 8] rfl (by decide)))
+  exact ⟨_, hr, rfl, rfl, rfl, rfl, by decide, rfl⟩
+
+/-- **poll_plain_truncate_loses_counterexample** (expected behaviour, recorded).  Plain polling follow never
+    re-opens: after the same history as `notify_truncate_loses_counterexample` the poller has done a full
+    quiet cycle, the file holds `[7,8,9,10]` and the stream is `[1,2,3,10]`. -/
+theorem poll_plain_truncate_loses_counterexample :
+    ∃ s : PSt Nat, PReachT ⟨1, false⟩ (pinit (some [1, 2, 3]) false) s ∧ s.removes = 0 ∧ s.rd = .attempt 0 ∧
+      s.fs.content 0 = [7, 8, 9, 10] ∧ s.delivered = [1, 2, 3, 10] ∧ unread s.fs ⟨0, 0, 4⟩ = [] := by
+  have hr : PReachT ⟨1, false⟩ (pinit (some [(1 : Nat), 2, 3]) false) _ :=
+    .step (.step (.step (.step (.step (.step (.step (.step (.step (.step (.step
+    (.refl (s0 := pinit (some [(1 : Nat), 2, 3]) false))
+    (.base (.readSome _ ⟨0, 0, 0⟩ 0 3 rfl (by decide) rfl (by decide) (by decide))))
+    (.truncate _ 0 0 rfl (by decide)))
+    (.base (.append _ 0 [7, 8] rfl (by decide))))
+    (.base (.readEmpty _ ⟨0, 0, 3⟩ 0 rfl (by decide) rfl rfl)))
+    (.base (.loopDone _ ⟨0, 0, 3⟩ rfl rfl)))
+    (.base (.statThere _ 0 rfl rfl rfl)))
+    (.base (.append _ 0 [9, 10] rfl (by decide))))
+    (.base (.readSome _ ⟨0, 0, 3⟩ 0 1 rfl (by decide) rfl (by decide) (by decide))))
+    (.base (.readEmpty _ ⟨0, 0, 4⟩ 0 rfl (by decide) rfl rfl)))
+    (.base (.loopDone _ ⟨0, 0, 4⟩ rfl rfl)))
+    (.base (.statThere _ 0 rfl rfl rfl))
+  exact ⟨_, hr, rfl, rfl, rfl, rfl, rfl⟩
+
+/-- **poll_reopen_truncate_duplicates_counterexample** (expected behaviour, recorded).  Polling follow with
+    re-open takes a file that is shorter than its offset for a NEW file: after a truncation to `n > 0` bytes
+    the surviving `n` bytes are delivered a second time.  `[1,2,3]` delivered, truncated to `[1,2]`: the
+    stream is `[1,2,3,1,2]`. -/
+theorem poll_reopen_truncate_duplicates_counterexample :
+    ∃ s : PSt Nat, PReachT ⟨1, true⟩ (pinit (some [1, 2, 3]) false) s ∧ s.removes = 0 ∧
+      s.fs.content 0 = [1, 2] ∧ s.delivered = [1, 2, 3, 1, 2] ∧ s.hist = [⟨0, 0, 3⟩] ∧ s.f = some ⟨0, 0, 2⟩ := by
+  have hr : PReachT ⟨1, true⟩ (pinit (some [(1 : Nat), 2, 3]) false) _ :=
+    .step (.step (.step (.step (.step (.step (.step
+    (.refl (s0 := pinit (some [(1 : Nat), 2, 3]) false))
+    (.base (.readSome _ ⟨0, 0, 0⟩ 0 3 rfl (by decide) rfl (by decide) (by decide))))
+    (.truncate _ 0 2 rfl (by decide)))
+    (.base (.readEmpty _ ⟨0, 0, 3⟩ 0 rfl (by decide) rfl rfl)))
+    (.base (.loopDone _ ⟨0, 0, 3⟩ rfl rfl)))
+    (.base (.statDiff _ 0 rfl rfl rfl (by decide))))
+    (.base (.reopen _ 2 rfl)))
+    (.base (.readSome _ ⟨0, 0, 0⟩ 0 2 rfl (by decide) rfl (by decide) (by decide)))
+  exact ⟨_, hr, rfl, rfl, rfl, rfl, rfl⟩
+
+/-- **poll_reopen_truncate_regrown_counterexample** (expected behaviour, recorded).  The size comparison is
+    all the poller has: a file truncated and grown back to EXACTLY the old offset before the poller looks is
+    not noticed (`statSame`), and what is appended later is delivered from the old offset on.  `[1,2,3]`
+    delivered, truncated, `[7,8,9]` written, a quiet cycle, `[10]` appended: the stream is `[1,2,3,10]`. -/
+theorem poll_reopen_truncate_regrown_counterexample :
+    ∃ s : PSt Nat, PReachT ⟨1, true⟩ (pinit (some [1, 2, 3]) false) s ∧ s.removes = 0 ∧ s.skips = 0 ∧
+      s.fs.content 0 = [7, 8, 9, 10] ∧ s.delivered = [1, 2, 3, 10] := by
+  have hr : PReachT ⟨1, true⟩ (pinit (some [(1 : Nat), 2, 3]) false) _ :=
+    .step (.step (.step (.step (.step (.step (.step (.step
+    (.refl (s0 := pinit (some [(1 : Nat), 2, 3]) false))
+    (.base (.readSome _ ⟨0, 0, 0⟩ 0 3 rfl (by decide) rfl (by decide) (by decide))))
+    (.truncate _ 0 0 rfl (by decide)))
+    (.base (.append _ 0 [7, 8, 9] rfl (by decide))))
+    (.base (.readEmpty _ ⟨0, 0, 3⟩ 0 rfl (by decide) rfl rfl)))
+    (.base (.loopDone _ ⟨0, 0, 3⟩ rfl rfl)))
+    (.base (.statSame _ 0 rfl rfl rfl rfl)))
+    (.base (.append _ 0 [10] rfl (by decide))))
+    (.base (.readSome _ ⟨0, 0, 3⟩ 0 1 rfl (by decide) rfl (by decide) (by decide)))
+  exact ⟨_, hr, rfl, rfl, rfl, rfl⟩
+
+/-- The extended systems contain the original ones: every reachable state of `NStep` / `PStep` is one of
+    `NStepT` / `PStepT` (so the witnesses above differ from the runs of the property only by `truncate`). -/
+theorem truncate_extends (cn : NCfg) (cp : PCfg) (n0 : NSt β) (p0 : PSt β) :
+    (∀ s, NReach cn n0 s → NReachT cn n0 s) ∧ (∀ s, PReach cp p0 s → PReachT cp p0 s) := by
+  constructor
+  · intro s h
+    induction h with
+    | refl => exact .refl
+    | step _ hs ih => exact .step ih (.base hs)
+  · intro s h
+    induction h with
+    | refl => exact .refl
+    | step _ hs ih => exact .step ih (.base hs)
 
 /-! ## non-vacuity (observation point (a)) -/
 
